@@ -336,10 +336,10 @@ def unwrap_root(x):
 def classify(case: Case, opts: dict) -> str:
     """trigger classes of known defects, from the input alone"""
     non_null = [v for v in case.values if v is not None]
+    if None in case.values and case.ty != "string":
+        return "null_not_string_typed"  # D12: the null split only happens for type == "string" (also when null is the only entry)
     if not non_null:
         return "only_null"
-    if None in case.values and case.ty != "string":
-        return "null_not_string_typed"
     if py_equal_groups(non_null):
         return "py_equal_values"
     return "none"
@@ -444,6 +444,10 @@ def e2e_case(ck: Check, camp, case: Case, cfg: Cfg, model: str, opts: dict) -> N
                 camp.hit("literal_order_differs")
             if sorted(got) != sorted(want):
                 ck.fail({**base, "mechanism": "literal_values"}, inp, f"Literal arguments are {got!r}, the schema's non-null entries are {want!r}")
+        elif not non_null:
+            # only null entries: the set of non-null values is empty, so there is nothing an Enum / Literal could list
+            # (literal mode renders the member as None); the null-acceptance clause below still applies
+            camp.hit("as:none_only")
         else:
             ck.fail({**base, "mechanism": "values"}, inp, f"neither an Enum class nor a Literal annotation was emitted; e: {hints.get('e')!r}")
             return
